@@ -50,6 +50,53 @@ CONSTANTS = {
 ENUMS = {"puan.Sign.POSITIVE": 1, "puan.Sign.NEGATIVE": -1, "puan.Dtype.BOOL": "bool", "puan.Dtype.INT": "int"}
 
 
+DISPLAY_DUNDERS = {"__repr__", "__str__", "__format__"}
+# every place outside raise statements, diagnostics and display methods where the package applies str() / repr() / format() / an
+# f-string to a value (confirmed by reading: the value of a json entry; the concatenated member ids, the value and the sign in
+# AtLeast._id_generator). A new site changes the set and re-arms the rule for display methods.
+STRINGIFICATION_SITES = {("puan/__init__.py", "str(v)"),
+                         ("puan/logic/plog/__init__.py", "str(value)"), ("puan/logic/plog/__init__.py", "str(sign)"),
+                         ("puan/logic/plog/__init__.py", "str(''.join(itertools.chain(map(operator.attrgetter('id'), filter(lam"[:40])}
+
+
+def _stringification_sites(P):
+    from .terms import _observational
+    sites = set()
+    # functions that only serve display methods (every mention of their name is inside a display method or another such helper)
+    defs = [(m, n) for m in P.modules.values() for n in ast.walk(m.tree) if isinstance(n, ast.FunctionDef)]
+    display = {id(n) for _, n in defs if n.name in DISPLAY_DUNDERS}
+    changed = True
+    while changed:
+        changed = False
+        inside = set()
+        for _, n in defs:
+            if id(n) in display:
+                inside |= {id(x) for x in ast.walk(n)}
+        for m, n in defs:
+            if id(n) in display or n.name.startswith("__"):
+                continue
+            own = {id(x) for x in ast.walk(n)}
+            uses = [x for mm in P.modules.values() for x in ast.walk(mm.tree)
+                    if ((isinstance(x, ast.Name) and x.id == n.name) or (isinstance(x, ast.Attribute) and x.attr == n.name)) and id(x) not in own]
+            if uses and all(id(x) in inside for x in uses):
+                display.add(id(n))
+                changed = True
+    for m in P.modules.values():
+        skip = set()
+        for n in ast.walk(m.tree):
+            if isinstance(n, ast.Raise) or (isinstance(n, ast.Expr) and isinstance(n.value, ast.Call) and _observational(n.value)) or \
+                    (isinstance(n, ast.FunctionDef) and id(n) in display) or \
+                    (isinstance(n, ast.Expr) and isinstance(n.value, ast.Constant)):
+                skip |= {id(x) for x in ast.walk(n)}
+        for n in ast.walk(m.tree):
+            if id(n) in skip:
+                continue
+            if isinstance(n, ast.JoinedStr) or (isinstance(n, ast.Call) and isinstance(n.func, ast.Name) and n.func.id in ("str", "repr", "format")) \
+                    or (isinstance(n, ast.Call) and isinstance(n.func, ast.Attribute) and n.func.attr == "format"):
+                sites.add((m.relpath, ast.unparse(n)[:40]))
+    return sites
+
+
 def _transparent_override(P, m, base):
     """the override only forwards its own parameters to the method it overrides (same decorators, no effects)"""
     try:
@@ -201,6 +248,10 @@ def obligations(ctx, pid):
         nd += 1
         have = {m for m in ci.methods if m.startswith("__") and m.endswith("__")}
         extra = sorted(have - EXPECTED_DUNDERS.get(cq, set()) - {"__doc__"})
+        if set(extra) & DISPLAY_DUNDERS and _stringification_sites(P) == STRINGIFICATION_SITES:
+            # how an object prints matters only where the package turns values into text; those sites are known (frozen below)
+            # and take ids / numbers, never a proposition or an array
+            extra = [m for m in extra if m not in DISPLAY_DUNDERS]
         for m in extra:
             fi = ci.methods[m]
             obs.append(Ob(f"E0.dunder:{fi.qualname}", "E0.new-dunder", f"{fi.file}:{fi.node.lineno} {fi.qualname}", "violation",
